@@ -38,6 +38,7 @@ inductive In
   | streamError (k : ErrKind)
   | pingTick                    -- the keep-alive thread's interval elapsed
   | pong (fresh : Bool)         -- a pong arrives; `fresh` = its id is one of the outstanding pings
+  | pongRaises                  -- a pong for an outstanding ping arrives and the application's callback for it raises
   | keysFlushed                 -- the server confirms the key upload of a passive login (control layer present: it reboots the connection)
   | loop                        -- the stack's loop runs the queued (detached) callbacks
   | appSend                     -- application sends a stanza
@@ -55,6 +56,7 @@ inductive Out
   | written (d : Nat) | dropped -- a send reached dispatcher d / was dropped
   | pingSent
   | raisedNotImplemented
+  | appRaised                   -- an application callback raised (reported to the caller of receive)
 deriving Repr, DecidableEq
 
 structure St where
@@ -188,6 +190,8 @@ def step (s : St) : In → St × List Out
            | none => ({ s with outstanding := n }, [.pingSent, .dropped]))
         | _, _ => ({ s with outstanding := n }, [.pingSent, .dropped])
   | .pong fresh => if fresh then ({ s with outstanding := 0 }, []) else (s, [])
+  -- `onPong`: `gotPong` (the keep-alive's bookkeeping) runs BEFORE the result is handed upward, so a raising callback cannot leave the ping recorded as unanswered
+  | .pongRaises => ({ s with outstanding := 0 }, [.appRaised])
   | .keysFlushed =>
     -- on_keys_flushed(reboot_connection=True): flag, then DISCONNECT broadcast DOWNWARD from the control layer (the network layer
     -- destroys the connection; the layers above hear of it only through the deferred 'disconnected')
@@ -207,6 +211,11 @@ def run : St → List In → St × List Out
     let r := step s i
     let rest := run r.1 is
     (rest.1, r.2 ++ rest.2)
+
+/-- keep-alive rounds in which every ping is answered before the next one is due; `true` = the application's callback for that answer raises -/
+def answeredRounds : List Bool → List In
+  | [] => []
+  | raises :: rs => .pingTick :: (if raises then .pongRaises else .pong true) :: answeredRounds rs
 
 /-- The alphabet's restrictions: a disconnect request only while a connection is up or being established; a new
     connection is requested only while none is up or being established (what `connectEvt` guards and what the
